@@ -51,7 +51,7 @@ pub fn queue_len(w: &WorkerProperties<u64, u64>) -> usize {
     w.message_queue.len()
 }
 
-struct Recorder(std::sync::Mutex<Vec<(String, u64)>>);
+pub struct Recorder(std::sync::Mutex<Vec<(String, u64)>>);
 impl DiscardHandler<u64, u64> for Recorder {
     fn discard(&self, reason: DiscardReason, job: &mut Job<u64, u64>) {
         self.0.lock().unwrap().push((format!("{reason:?}"), job.msg));
@@ -194,4 +194,31 @@ pub async fn fates_once(queue: &[(u64, bool)], curr: &[u64], op: &str, mode: &st
     h.extend(got2.lock().unwrap().iter().map(|x| x.to_string()));
     let d: Vec<String> = rec.0.lock().unwrap().iter().map(|(r, m)| format!("{r}:{m}")).collect();
     format!("queue={};handed={};discards={};curr={}", q.join("+"), h.join("+"), d.join("+"), w.curr_jobs.len())
+}
+
+/// A worker record with the given queued job keys (msg ids 0..), in-flight keys and draining flag, backed by a worker actor that logs the msg ids it handles.
+pub async fn record_logging(queue: &[u64], curr: &[u64], draining: bool) -> (WorkerProperties<u64, u64>, std::sync::Arc<std::sync::Mutex<Vec<u64>>>, std::sync::Arc<Recorder>) {
+    let got = std::sync::Arc::new(std::sync::Mutex::new(Vec::new()));
+    let (actor, handle) = crate::Actor::spawn(None, LoggingWorker(got.clone()), ()).await.expect("worker");
+    let mut w = WorkerProperties::new("verif".to_string(), 0, actor, WorkerDiscardSettings::None, None, handle, None);
+    let rec = std::sync::Arc::new(Recorder(std::sync::Mutex::new(Vec::new())));
+    w.discard_handler = Some(rec.clone());
+    for (i, k) in queue.iter().enumerate() {
+        w.message_queue.push_back(job(*k, i as u64));
+        *w.pending_key_counts.entry(*k).or_default() += 1;
+    }
+    for k in curr {
+        w.curr_jobs.insert(*k, JobOptions::default());
+        *w.pending_key_counts.entry(*k).or_default() += 1;
+    }
+    w.is_draining = draining;
+    (w, got, rec)
+}
+
+pub fn recorded(rec: &Recorder) -> Vec<(String, u64)> {
+    rec.0.lock().unwrap().clone()
+}
+
+pub fn queue_ids(w: &WorkerProperties<u64, u64>) -> Vec<u64> {
+    w.message_queue.iter().map(|j| j.msg).collect()
 }
